@@ -34,7 +34,9 @@ def run(rep: core.Report):
     tolerance_degree(rep, "R13f.tol")
     _r13g(rep)
     _r13h(rep)
-    from rules import c13_abi, c13_bounds, c13_stride
+    from rules import c13_abi, c13_bounds, c13_stride, shared_zeroinit
+
+    shared_zeroinit.run(rep, "R13i", [r for r in core.python_files("phonopy") if "phonoc." in core.read(r) or "harmonic/" in r or "structure/" in r], 8)
 
     c13_abi.run(rep, an, tus)
     c13_bounds.run(rep, an, tus)
@@ -632,6 +634,9 @@ def selftest():
     V = []
     b = lambda name, file, old, new, rule, expect="", **kw: V.append(dict(name=name, kind="break", file=file, old=old, new=new, rule=rule, expect=expect, **kw))
     n = lambda name, file, old, new, **kw: V.append(dict(name=name, kind="neutral", file=file, old=old, new=new, **kw))
+    FC_ = "phonopy/harmonic/force_constants.py"
+    b("full fc allocated with np.empty before the distributing kernel adds to it", FC_, "    fc = np.zeros(\n        (compact_fc.shape[1], compact_fc.shape[1], 3, 3), dtype=\"double\", order=\"C\"\n    )\n    fc[primitive.p2s_map] = compact_fc", "    fc = np.empty(\n        (compact_fc.shape[1], compact_fc.shape[1], 3, 3), dtype=\"double\", order=\"C\"\n    )\n    fc[primitive.p2s_map] = compact_fc", "R13i", "compact_fc_to_full_fc")
+    n("compact fc allocated with np.empty and assigned as a whole", FC_, "    fc = np.zeros((len(p2s_map), full_fc.shape[1], 3, 3), dtype=\"double\", order=\"C\")\n    fc[:] = full_fc[p2s_map]", "    fc = np.empty((len(p2s_map), full_fc.shape[1], 3, 3), dtype=\"double\", order=\"C\")\n    fc[:] = full_fc[p2s_map]")
     # R13b
     b("glue drops the direction for the Wang kernel", "c/_phonopy.cpp", "    if (is_nac_q_zero || (!is_nac)) {\n        q_direction = NULL;", "    if (is_nac_q_zero || (!is_nac) || use_Wang_NAC) {\n        q_direction = NULL;", "R13h", "q_direction")
     n("glue: direction test with the arms exchanged", "c/_phonopy.cpp", "    if (is_nac_q_zero || (!is_nac)) {\n        q_direction = NULL;\n    } else {\n        q_direction = (double *)py_q_direction.data();\n    }", "    if (is_nac && !is_nac_q_zero) {\n        q_direction = (double *)py_q_direction.data();\n    } else {\n        q_direction = NULL;\n    }")
